@@ -704,14 +704,23 @@ class FrameChecker(ast.NodeVisitor):
                                                        "the required unconditional statement is not in the function body"))
         # a required statement inside a local closure: at the top level of that closure, not skippable by an earlier return / raise
         for k, (fname, text) in enumerate(self.c.get("must_call_in", [])):
-            want = ast.unparse(ast.parse(text).body[0])
+            # `text` is a pattern: $0, $1, ... stand for the closure's own parameters (whatever they are called), $H for any one name
+            want = text
             name = f"{self.c['name']}/frame:must-call-in#{k}:{fname}:{want[:60]}"
             defs_ = [n for n in ast.walk(self.fn) if isinstance(n, ast.FunctionDef) and n.name == fname and n is not self.fn]
-            ok, why = False, f"no local function `{fname}`"
+            if not defs_:
+                # the closure was renamed / restructured: nothing to decide here (the bounded families decide), never a violation
+                self.obl[name] = Obligation(name, "undecided", self.fn.lineno, want, f"no local function `{fname}`")
+                continue
+            import re as _re
+            ok, why = False, ""
             for d_ in defs_:
+                pat = _re.escape(want).replace(_re.escape("$H"), r"[A-Za-z_]\w*")
+                for i_, a_ in enumerate(d_.args.args):
+                    pat = pat.replace(_re.escape(f"${i_}"), _re.escape(a_.arg))
                 lv, why = False, f"the required unconditional statement is not at the top level of `{fname}`"
                 for st in d_.body:
-                    hit_ = [st_ for st_ in flat([st]) if ast.unparse(st_) == want]
+                    hit_ = [st_ for st_ in flat([st]) if _re.fullmatch(pat, ast.unparse(st_))]
                     if hit_:
                         ok, why = (not lv), ("" if not lv else "the required statement can be skipped by an earlier return / raise")
                         break
